@@ -36,11 +36,22 @@ def gen_text(rng, cs, maxlen=6):
         except (UnicodeError, LookupError):
             pass
     t = ''.join(out)
+    r = rng.random()
+    if r < 0.12:
+        # texts whose encoded form begins or ends with bytes that look like something else: a byte order mark,
+        # NUL, a MIDI status byte
+        t = pick(rng, ('\ufeff', 'ï»¿', 'ÿþ', 'þÿ', '\x00', 'ÿ/\x00')) + t
+    elif r < 0.2:
+        t = t + pick(rng, ('\x00', '\ufeff', 'ÿ', '÷'))
     try:
         if t.encode(cs).decode(cs) != t:
-            return ''
+            return ''.join(out) if ''.join(out).encode(cs).decode(cs) == ''.join(out) else ''
     except UnicodeError:
-        return ''
+        try:
+            t = ''.join(out)
+            return t if t.encode(cs).decode(cs) == t else ''
+        except UnicodeError:
+            return ''
     return t
 
 
